@@ -1,6 +1,6 @@
 (* C06 -- property theorems only.  Proofs live in C06/Proofs*.v and C06/Tables.v. *)
 From Coq Require Import NArith List Bool.
-From DV Require Import Base.Outcome Base.Bytes C06.Gen C06.Model C06.Proofs C06.Proofs2 C06.Tables C06.Proofs3.
+From DV Require Import Base.Outcome Base.Bytes C06.Gen C06.Model C06.Proofs C06.Proofs2 C06.Tables C06.Proofs3 C06.Proofs4.
 Import ListNotations.
 Local Open Scope N_scope.
 
@@ -20,6 +20,11 @@ Print Assumptions C06_from_octet_table.
 Theorem C06_from_octet_table_refuted : exists b, b < 256 /\ enc_ok false from_octet b = false.
 Proof. exact from_octet_table_refuted. Qed.
 Print Assumptions C06_from_octet_table_refuted.
+
+Theorem C06_nonprintable_escaped : forall b, b < 256 -> (b < 32 \/ 127 <= b) ->
+  label_sym b = SDec b /\ from_octet b = SDec b /\ quoted_from_octet b = SDec b /\ display_from_octet b = SDec b.
+Proof. exact nonprintable_escaped. Qed.
+Print Assumptions C06_nonprintable_escaped.
 
 Theorem C06_show_is_word_safe : forall l, wf_bytes l ->
   show_label l = flat_map sym_text (map label_sym l) /\
@@ -94,6 +99,18 @@ Theorem C06_scan_show_record_txt_no_strings_refuted : exists k r,
   exists t, show_record k r = Ok t /\ read_record [FCharstrs] t = Err E_tokens.
 Proof. exact scan_show_record_txt_no_strings_refuted. Qed.
 Print Assumptions C06_scan_show_record_txt_no_strings_refuted.
+
+Theorem C06_type_schemas_consistent : forallb schema_ok type_schemas = true.
+Proof. exact type_schemas_ok. Qed.
+Print Assumptions C06_type_schemas_consistent.
+
+Theorem C06_scan_show_record_typed : forall e, In e type_schemas ->
+  exists ks, schema_kinds e = Some ks /\
+  forall k owner ttl cl vs, wf_name owner -> ttl <= 4294967295 -> cl < 65536 -> wf_fields ks vs ->
+  exists t, show_record k (typed_record e owner ttl cl vs) = Ok t /\
+            read_record ks t = Ok (owner, ttl, cl, s_code e, vs).
+Proof. exact scan_show_record_typed. Qed.
+Print Assumptions C06_scan_show_record_typed.
 
 Theorem C06_generic_form_roundtrip : forall k owner ttl cl rt data,
   wf_name owner -> ttl <= 4294967295 -> cl < 65536 -> rt < 65536 ->
